@@ -257,7 +257,7 @@ def classify(case, cfg):
 
 
 # ----------------------------------------------------------------------------- running
-def run_config(ctx, exe, drv, sheps, workers, envkw, cases, timeout=300):
+def run_config(ctx, exe, drv, sheps, workers, envkw, cases, timeout=1500):
     env = core.qenv(sheps, workers, stack=65536, **envkw)
     script = []
     for c in cases:
@@ -273,7 +273,7 @@ def run_config(ctx, exe, drv, sheps, workers, envkw, cases, timeout=300):
         # the process died / hung inside case len(runs): re-run the remaining cases one process each
         impl[len(runs)] = tail + ["TIMEOUT" if rc == -9 else "CRASH rc=%s" % rc]
         for j in range(len(runs) + 1, len(cases)):
-            rc2, o2, e2 = core.run_lines(exe, case_lines(cases[j]) + ["Q"], timeout=150, env=env)
+            rc2, o2, e2 = core.run_lines(exe, case_lines(cases[j]) + ["Q"], timeout=400, env=env)
             r2, t2 = split_runs(o2[1:])
             impl[j] = r2[0] if r2 else t2 + ["TIMEOUT" if rc2 == -9 else "CRASH rc=%s" % rc2]
     mscript = ["K %d %d" % (cfg["AC"], cfg["TL"])]
